@@ -99,6 +99,118 @@ def long_execs(rng, n, big):
     return out
 
 
+HEX = "0123456789abcdef"
+UNITS = "mhdwMy"
+EXTS = ["", "", "jpg", "txt", "q7zx", "z"]
+
+
+def cps(t):
+    return [ord(c) for c in t]
+
+
+def canon_name(rng):
+    """a header-name suffix in canonical MIME form (inputs only): Ab, X1-Yz, ..."""
+    seg = lambda: rng.choice("ABCDEFGHXYZ") + "".join(rng.choice("abcxyz0189") for _ in range(rng.randrange(0, 5)))
+    return "-".join(seg() for _ in range(rng.randrange(1, 3)))
+
+
+def rnd_text(rng, n, ext=""):
+    """n bytes of printable ASCII without quotes, slashes, dots; the last len(ext)+1 bytes are ".ext" """
+    body = "".join(rng.choice("abcdefghijklmnopqrstuvwxyz0123456789 _-") for _ in range(n))
+    if ext and n > len(ext) + 1:
+        body = body[:n - len(ext) - 1] + "." + ext
+    return body.strip() or body.replace(" ", "_")
+
+
+def rnd_req(rng, big):
+    """one upload request (inputs only): method, file id text, body, part headers, query, pair headers"""
+    method = rng.choice(["POST", "POST", "PUT"])
+    key = "".join(rng.choice(HEX) for _ in range(rng.choice([1, 2, 2, 3, 8, 15, 16])))
+    if rng.random() < 0.2:
+        key = key.upper()
+    delta = rng.choice(["", "", "", "1", "2", "7", "10", "255", "256", "9999", "007", "0"])
+    ext = rng.choice(EXTS)
+    nn = rng.choice(LENS + [256, 300, 12, 20])
+    nm = rnd_text(rng, nn, rng.choice(["", "", "txt", "jpg", "q7zx", "q7zx"]))
+    cn = rng.choice(LENS + [256, 300, 10, 24])
+    ct = rng.choice(["application/octet-stream", "text/plain", "image/jpeg", "x/y"]) if rng.random() < 0.4 else (
+        ("x/" + rnd_text(rng, cn - 2).replace(" ", "_")) if cn >= 3 else "q" * cn)
+    pairs = []
+    names = set()
+    for _ in range(rng.choice([0, 0, 1, 2, 4])):
+        pn = canon_name(rng)
+        if pn in names:
+            continue
+        names.add(pn)
+        pairs.append({"name": cps(pn), "v": {"n": rng.choice([0, 1, 9, 300]), "seed": rng.randrange(1 << 30)}})
+    if pairs and rng.random() < big:
+        # the JSON text {"name":"value",...} lands on / next to the 64 KiB limit
+        rest = 1 + len(pairs) + sum(len(p["name"]) + p["v"]["n"] + 5 for p in pairs[1:]) + len(pairs[0]["name"]) + 5
+        pairs[0]["v"]["n"] = rng.choice([65534, 65535, 65535, 65536, 65537]) - rest
+    ts = {"has": rng.random() < 0.7, "v": [0, 0, 0] + [rng.randrange(256) for _ in range(5)]}
+    if rng.random() < 0.1:
+        ts["v"] = rng.choice([[0] * 8, [0, 0, 0, 255, 255, 255, 255, 255], [0, 0, 1, 0, 0, 0, 0, 0], [0, 0, 0, 0, 0, 0, 0, 1]])
+    ttl = {"has": rng.random() < 0.6, "c": rng.choice([0, 1, 3, 254, 255, rng.randrange(256)]), "u": ord(rng.choice(UNITS))}
+    return {"ev": "req", "method": method,
+            "fid": {"key": cps(key), "ck": cps("".join(rng.choice(HEX) for _ in range(8))), "delta": cps(delta), "ext": cps(ext)},
+            "data": fld(rng, rng.choice(DATA)), "name": {"b": cps(nm)}, "ct": {"b": cps(ct)}, "pairs": pairs, "ts": ts, "ttl": ttl,
+            "ce": rng.choice(["", "", "", "gzip", "gzip", "br", "identity", "deflate"]) if rng.random() < 0.6 else "",
+            "cm": rng.random() < 0.25, "ats": [rng.randrange(256) for _ in range(8)]}
+
+
+def follow_ups(rng, nrec, ver, start, alter_len, full=True):
+    """what is done with the records of a file once they are written: every read path, raw copies, scans, an altered byte
+    (full), or one read path per record, one copy and one scan (light)"""
+    ops = []
+    if not full:
+        vias = ["data", "blob", "hdrbody"]
+        ops += [{"ev": "get", "i": i, "via": rng.choice(vias)} for i in range(1, nrec + 1)]
+        ops.append({"ev": "copy", "i": rng.randrange(1, nrec + 1), "via": rng.choice(["needle", "volume"] if start == 8 else ["needle"]),
+                    "ts": [rng.randrange(256) for _ in range(8)]})
+        ops += [{"ev": "get", "i": nrec + 1, "via": rng.choice(vias)},
+                {"ev": "scan", "body": True, "via": rng.choice(["from", "file"] if start == 8 else ["from"])}]
+        return ops
+    for i in range(1, nrec + 1):
+        ops += [{"ev": "get", "i": i, "via": v} for v in ("data", "blob", "hdrbody")]
+    ops.append({"ev": "copy", "i": rng.randrange(1, nrec + 1), "via": "needle", "ts": [rng.randrange(256) for _ in range(8)]})
+    if start == 8:
+        ops.append({"ev": "copy", "i": rng.randrange(1, nrec + 1), "via": "volume", "ts": [0] * 8})
+    ops += [{"ev": "get", "i": j, "via": rng.choice(["data", "blob"])} for j in range(nrec + 1, nrec + 3)]
+    ops += [{"ev": "scan", "body": True, "via": "from"}, {"ev": "scan", "body": rng.random() < 0.5, "via": "file"}]
+    if alter_len > 0:
+        ops += [{"ev": "alter", "i": 1, "pos": rng.randrange(alter_len), "mask": 1 << rng.randrange(8)},
+                {"ev": "get", "i": 1, "via": "data"}, {"ev": "get", "i": 1, "via": "blob"}, {"ev": "get", "i": 1, "via": "hdrbody"},
+                {"ev": "copy", "i": 1, "via": "needle", "ts": [7] * 8}, {"ev": "get", "i": nrec + 3 if start == 8 else nrec + 2, "via": "data"},
+                {"ev": "scan", "body": True, "via": "from"}]
+    return ops
+
+
+def req_execs_from_tlc(rng, reqs, full_share):
+    """one execution per TLC-enumerated request: the request, then every read path, copies, scans, an altered byte"""
+    out = []
+    for q in reqs:
+        v = rng.choice([2, 3, 3, 3, 1])
+        start = rng.choice([8, 8, 8, 0, 16])
+        dn = len(q["data"].get("b", [])) if q["ce"] != "gzip" else 0
+        out.append(({"ev": "reset", "v": v, "start": start}, [q] + follow_ups(rng, 1, v, start, dn, rng.random() < full_share)))
+    return out
+
+
+def req_execs_random(rng, n, big, full_share):
+    out = []
+    for _ in range(n):
+        v = rng.choice([2, 3, 3, 3, 1])
+        start = rng.choice([8, 8, 8, 0])
+        k = rng.choice([1, 1, 2, 3])
+        ops = [rnd_req(rng, big) for _ in range(k)]
+        if rng.random() < 0.3:       # mixed with blobs built field by field
+            ops.insert(rng.randrange(len(ops) + 1), fix_id(rnd_blob(rng, dn=rng.choice([0, 1, 9]))))
+        first = ops[0]
+        dn = first["data"]["n"] if first.get("ce", "") != "gzip" else 0
+        out.append(({"ev": "reset", "v": v, "start": start}, ops + follow_ups(rng, len(ops), v, start, dn, rng.random() < full_share)))
+    return out
+
+
 def mutate(evs):
     """binding self-test: a read that returns other data than was written must be rejected"""
     for i, e in enumerate(evs):
@@ -124,6 +236,9 @@ def run(ctx):
         mc = ctx.instance("MC_NeedleFiles", "NeedleLayout", "NeedleLayout_mc.cfg", {"MaxOps": 3, "Level": level})
         hists = ctx.generate(mc, workers=4, timeout=1200)
         hists.sort(key=lambda h: json.dumps(h, sort_keys=True))   # TLC emits in worker order
+        reqs = [h["ops"][0] for h in hists if h["ver"] == 0]     # the request domain ReqU (laws checked in the same run)
+        hists = [h for h in hists if h["ver"] != 0]
+        ctx.notes["tlc_requests"] = len(reqs)
         for h in hists:
             ops = list(h["ops"])
             nput = sum(1 for o in ops if o["ev"] == "put")
@@ -134,6 +249,13 @@ def run(ctx):
             execs = execs[:250]
         ctx.notes["tlc_histories_used"] = len(execs)
         k = 10 if ctx.thorough else 1
+        # how a blob enters a record: upload requests through CreateNeedleFromRequest, then every read path and raw copies
+        share = 1.0 if ctx.thorough else 0.3
+        if not ctx.thorough:             # quick: a seeded sample of the enumerated requests (all of them in the thorough tier)
+            reqs = rng.sample(reqs, min(len(reqs), 260))
+        ctx.notes["tlc_requests_used"] = len(reqs)
+        execs += req_execs_from_tlc(rng, reqs, share)
+        execs += req_execs_random(rng, (70 if ctx.thorough else 90) * k, 0.15, share)
         execs += grid_execs(rng, 256 * k)
         execs += flip_execs(rng, 12 * k)
         execs += long_execs(rng, 25 * k, [4095, 4096, 5000, 70000] if ctx.thorough else [4095, 4096])
@@ -150,21 +272,40 @@ def run(ctx):
     trace = ctx.drive(binp, ["--script", script])
 
     def nontrivial(e):
-        return any('"ev":"put"' in x for x in e) and any('"ev":"get"' in x or '"ev":"scan"' in x for x in e)
+        return any('"ev":"put"' in x or '"ev":"req"' in x for x in e) and any('"ev":"get"' in x or '"ev":"scan"' in x for x in e)
 
     ctx.judge("NeedleLayoutTrace", trace, "trace_base.cfg", {"MaxOps": 0, "Level": 1}, nontrivial=nontrivial, mutate=mutate,
-              chunk_events=8000)
+              chunk_events=8000 if ctx.thorough else 2500)
     ctx.rule = ("executions = one volume data file each: (a) TLC-enumerated histories of length 3 over 5-7 blobs x versions 1,2,3 "
                 "x start offsets {0,8} (put/get/alter/scan), each followed by a read of every record and two scans; (b) boundary "
                 "grid: every flag byte 0..255 x name/mime lengths {0,1,7,8,9,254,255} x data {0,1,7,8,9,100,4095,4096} x pairs "
                 "{0,1,9,300,65535} (seeded sample), target record + small record, read, scan, one altered data byte, read, scan; "
                 "(c) a single-bit flip at every data byte position of sampled records; (d) random files of 5-20 blobs with "
-                "interleaved reads, scans and alterations; records up to 700 bytes are compared byte by byte with the layout, "
-                "larger ones by header, lengths and content tokens; non-trivial = at least one put and one read/scan")
+                "interleaved reads, scans and alterations; (e) upload requests through CreateNeedleFromRequest: every request of the "
+                "TLC-enumerated domain ReqU (all requests that differ from a base request in at most two of: method POST multipart / "
+                "PUT raw, file id text (odd / upper-case key hex, _delta incl. leading zeros and byte carry, .ext), data length, "
+                "file name (none, plain, known / made-up extension, leading dot, 255, 256 bytes), content type (none, plain, "
+                "octet-stream, 255, 256 bytes), 0-2 Seaweed- pairs, ts (absent, 0, small, 2^40-1, 2^40), ttl (absent, 0m, 3m, 255y), "
+                "Content-Encoding (none, gzip, br), cm) plus seeded random requests over the full product with names/types up to "
+                "300 bytes and pair texts on and around 65535 bytes; each request is appended and then read back through ReadData, "
+                "ReadNeedleBlob+ReadBytes and ReadNeedleHeader+ReadNeedleBody, copied raw to the end of the file (ReadNeedleBlob + "
+                "WriteNeedleBlob of the needle package and of a real storage.Volume opened over the file), scanned "
+                "(ScanVolumeFileFrom and ScanVolumeFile by name), one data byte altered, read / copied / scanned again; "
+                "records up to 700 bytes are compared byte by byte with the layout, "
+                "larger ones by header, lengths and content tokens; non-trivial = at least one put/request and one read/scan")
     ctx.exhaustive = True
     ctx.assumptions += ["the checksum is not interpreted: only 'altered data within a 32-bit burst => every later read fails' is demanded "
                         "(CRC-32 guarantee); alterations spread wider than 4 bytes admit any result",
                         "checksum and padding bytes of a record are not compared",
                         "names/mimes up to 255 bytes, pairs up to 65535 bytes, PairsSize = len(pairs), Ttl pointer non-nil (as "
                         "CreateNeedleFromRequest builds needles)",
-                        "content equality of large fields is equality of (length, FNV-64 token)"]
+                        "content equality of large fields is equality of (length, FNV-64 token)",
+                        "upload requests are handed to CreateNeedleFromRequest the way VolumeServer.PostHandler does (Request.ParseForm first; "
+                        "without it Go >= 1.17 no longer exposes the query parameters of a multipart request to FormValue once "
+                        "MultipartReader was called); fixJpgOrientation off; one file part per multipart body; ASCII names without quotes or "
+                        "slashes; pair names in canonical MIME header form, pair values alphanumeric (no JSON escapes); a declared gzip body "
+                        "is a real gzip stream",
+                        "where the statement is silent every outcome is admitted: name / mime of 256 bytes and more, pair text of 64 KiB and "
+                        "more, ts of 0 or beyond 5 bytes (and the default last-modified), cm on a PUT, a content type that is the default "
+                        "type or that the file name's extension may imply (all extensions except a made-up one), has-bits of empty fields",
+                        "the pairs of a needle are compared as the JSON object they decode to (standard library), not byte by byte"]
